@@ -1,4 +1,4 @@
-//go:build verif
+//go:build verif && !noquotas
 
 package engines
 
@@ -368,11 +368,4 @@ func runQuota(ctx *core.RunCtx) {
 	ctx.Trivial = killedN == 0
 	ctx.Shape = core.HashString(src) ^ uint64(killedN)*1315423911 ^ ref.schedH
 	ctx.LogHash = core.HashStrings(ref.events)
-}
-
-func min(a, b int) int {
-	if a < b {
-		return a
-	}
-	return b
 }
